@@ -40,6 +40,21 @@ let () =
            let z = qlist (expect ic "Z") in
            let d = qlist (expect ic "D") in
            Printf.printf "A %s %s\n" id (string_of_bool (check_ray (infp_of sem) p z d))
+         | "opttest", [] ->
+           let hdr = (match next_tokens ic with Some h -> h | None -> failwith "eof") in
+           let (p, ns) = read_ilp ic hdr in
+           let (cs, rs) = (match expect ic "BAS" with [ c; r ] -> (c, r) | _ -> failwith "BAS") in
+           let x = qlist (expect ic "X") in
+           let y = qlist (expect ic "Y") in
+           let b = { cstat = bstats_of_string cs; rstat = bstats_of_string rs } in
+           (match opt_test p (nat_of_int ns) b x y with
+            | None -> Printf.printf "A %s none\n" id
+            | Some s -> Printf.printf "A %s some %s | %s | %s | %s | %s\n" id (string_of_q s.sval) (qs_join s.sx) (qs_join s.spi) (qs_join s.sslack) (qs_join s.src))
+         | "inftest", [] ->
+           let hdr = (match next_tokens ic with Some h -> h | None -> failwith "eof") in
+           let (p, _) = read_ilp ic hdr in
+           let y = qlist (expect ic "Y") in
+           Printf.printf "A %s %s\n" id (string_of_bool (infeas_test !sentinel p y))
          | "dz", [] ->
            let hdr = (match next_tokens ic with Some h -> h | None -> failwith "eof") in
            let (p, _) = read_ilp ic hdr in
